@@ -1223,6 +1223,20 @@ def store8(ctx) -> List[Ob]:
         out.append(ok("STORE-8", er.qualname, key, ctx.where(er, rep.stmt), "every RegionBlock inside the new sub-graph gets the new region as parent"))
     else:
         out.append(bad("STORE-8", er.qualname, key, where, "regions moved into the new sub-graph keep their old parent_region"))
+    # (iii') the two in-place replacers of a region write the object that is stored in the hierarchy
+    rb = prog.classes.get("RegionBlock")
+    for mname, fld in (("replace_header", "header"), ("replace_exiting", "exiting")):
+        mm = rb.find_method(mname) if rb is not None else None
+        key = f"{mname} changes the stored region"
+        if mm is None:
+            out.append(unresolved("STORE-8", "RegionBlock", key, where, f"RegionBlock.{mname} not found"))
+            continue
+        sets = [c for c in A.walk_no_nested(mm.node) if isinstance(c, ast.Call) and (A.dotted(c.func) or "") in ("object.__setattr__", "setattr") and len(c.args) == 3 and A.unparse(c.args[0]) == "self" and isinstance(c.args[1], ast.Constant) and c.args[1].value == fld]
+        copies = [c for c in A.walk_no_nested(mm.node) if isinstance(c, ast.Call) and (A.dotted(c.func) or "").split(".")[-1] == "replace" and c.args and A.unparse(c.args[0]) == "self"]
+        if sets and not copies:
+            out.append(ok("STORE-8", mm.qualname, key, ctx.where(mm, sets[0]), f"object.__setattr__(self, '{fld}', ..): the region block that the enclosing graph holds is updated"))
+        else:
+            out.append(bad("STORE-8", mm.qualname, key, ctx.where(mm), f"{mname} does not write '{fld}' of the region itself (it returns a copy): the copy is stored nowhere - the parent region in the enclosing graph keeps naming a block that has moved into a nested region"))
     # (iv) the entry loop substitutes the region's own name
     key = "entries re-targeted to the region's name"
     loops = _rename_loops(er.node)
